@@ -724,11 +724,11 @@ func lexSoyDocParam(l *lexer) {
 	for {
 		var r = l.next()
 		if isSpaceEOL(r) || r == eof {
-			l.pos--
+			l.backup()
 			l.emit(itemIdent)
 			// don't skip newlines. the outer routine needs to know about it
 			if isSpace(r) || r == eof {
-				l.pos++
+				l.pos += ast.Pos(l.width)
 			}
 			l.ignore()
 			break
